@@ -6,6 +6,7 @@ toolchain go1.23.5
 
 require (
 	github.com/buildbuildio/pebbles v0.0.0
+	github.com/gobwas/ws v1.1.0
 	github.com/vektah/gqlparser/v2 v2.5.1
 	pgregory.net/rapid v1.3.0
 )
@@ -14,7 +15,6 @@ require (
 	github.com/agnivade/levenshtein v1.1.1 // indirect
 	github.com/gobwas/httphead v0.1.0 // indirect
 	github.com/gobwas/pool v0.2.1 // indirect
-	github.com/gobwas/ws v1.1.0 // indirect
 	github.com/samber/lo v1.37.0 // indirect
 	golang.org/x/exp v0.0.0-20220303212507-bbda1eaf7a17 // indirect
 )
